@@ -1,3 +1,4 @@
-From TSG Require Import Proofs.SL2Stmt Proofs.SLF2Expr.
-Set Printing Width 250.
-About rel_step2. About endpoint_sim2. About attrs_all_sim2. About print_arg_sim2. About arg_ok2. About arg_ok2_mono. About trav_fail2. About pfr2_lexec_attr. About pfr2_leval. About unscoped_add_fail2. About epost2_K. About K_step0. About wstatic_ext0. About Renv2_static.
+From TSG Require Import Proofs.SLF2File.
+Print Assumptions strict_fail_lazy_fail_scoped_lemma.
+Print Assumptions strict_fail_lazy_err_scoped_lemma.
+Print Assumptions inh_static_nil.
